@@ -13,6 +13,7 @@ ASSUMPTIONS = [
     'no external interference with the cache directory for the disk-agreement and restart theorems (the property\'s "externally deleted files" are covered by the accounting / no-panic theorems and by the differential leg)',
     'the file-system clock is strictly monotone between file-touching calls (the harness rewrites each touched file\'s mtime to a logical clock after checking WHICH files the real code touched)',
     'I/O errors other than "file missing" (permissions, disk full) are not modelled',
+    'restart theorem only: no operation names a key whose file name starts with .sccachetmp (init deletes such files; sccache keys are hex digests)',
 ]
 TRUSTED = ['hook: LruDiskCache::verif_index / verif_pending (read-only views of the private LRU order and reservations)']
 
